@@ -3,8 +3,8 @@ history of depth D over the API alphabet with the expected observation after eve
 breaker inside a synctest bubble) + long random behaviours from TLC -simulate."""
 import json, vlib, pipeline
 
-INVS = "TypeOK WindowRefinement WindowBounds ClosedMeansBelowThreshold RemainingDelayExact TrialDecision EventPath Emit"
-PROPS = "OpensExactlyWhen OpenAdmission OpenIsSticky TrialDirection EventIffChange"
+INVS = "TypeOK WindowRefinement WindowBounds ClosedMeansBelowThreshold RemainingDelayExact TrialDecision Emit"
+PROPS = "OpensExactlyWhen OpenAdmission OpenIsSticky TrialDirection EventPath"
 
 
 def C(fthr=1, fcap=1, frate=0, fexec=0, period=0, sthr=0, scap=0, delay=3):
@@ -29,18 +29,26 @@ CONFIGS = [
 ]
 
 
-def mc(cfg, ticks, depth):
-    tla = "---- MODULE MC ----\nEXTENDS Breaker\nMCCfg == %s\nMCTicks == %s\n====\n" % (vlib.tla_value(cfg), vlib.tla_value(set(ticks)))
-    c = ("SPECIFICATION Spec\nCONSTANTS\n Cfg <- MCCfg\n Ticks <- MCTicks\n SliceU = 2\n Depth = %d\n"
+ALPHA = {   # two alphabets per configuration: the standalone API, and executions (with a delay function) + probes
+    "api": (["RecS", "RecF", "Try", "open", "halfopen", "closed"], []),
+    "exec": (["Try", "closed", "RecS"], [-1, 1, 5]),
+}
+
+
+def mc(cfg, ticks, depth, alpha):
+    letters, dvs = ALPHA[alpha]
+    tla = "---- MODULE MC ----\nEXTENDS Breaker\nMCCfg == %s\nMCTicks == %s\nMCLetters == %s\nMCExecDelays == %s\n====\n" % (
+        vlib.tla_value(cfg), vlib.tla_value(set(ticks)), vlib.tla_value(set(letters)), vlib.tla_value(set(dvs)))
+    c = ("SPECIFICATION Spec\nCONSTANTS\n Cfg <- MCCfg\n Ticks <- MCTicks\n Letters <- MCLetters\n ExecDelays <- MCExecDelays\n SliceU = 2\n Depth = %d\n"
          "INVARIANTS %s\nPROPERTIES %s\nCHECK_DEADLOCK FALSE\n" % (depth, INVS, PROPS))
     return tla, c
 
 
-def one(ctx, binary, name, cfg, ticks, depth, unit_ns, simulate=None):
-    tla, c = mc(cfg, ticks, depth)
-    d = vlib.stage_specs(ctx, "br_%s_%s" % (name, "sim" if simulate else "ex"), tla, c)
+def one(ctx, binary, name, cfg, ticks, depth, unit_ns, alpha, simulate=None):
+    tla, c = mc(cfg, ticks, depth, alpha)
+    d = vlib.stage_specs(ctx, "br_%s_%s_%s" % (name, alpha, "sim" if simulate else "ex"), tla, c)
     hcfg = dict(cfg, unit_ns=unit_ns)
-    kw = dict(timeout=1500)
+    kw = dict(timeout=1500, workers=4)
     if simulate:
         kw.update(simulate=simulate, depth=depth + 1, workers=1)
     res, recs, summ = pipeline.tlc_to_harness(ctx, d, binary, "breaker_replay", dict(cfg=json.dumps(hcfg)), kw)
@@ -65,12 +73,19 @@ def run(ctx):
     binary = vlib.build_harness(ctx)
     quick = ctx.tier == "quick"
     units = [1_000_000, 1_000, 3_600_000_000_000]
+    jobs = []
     for i, (name, cfg, ticks) in enumerate(CONFIGS):
         timed = cfg["period"] != 0
-        depth = (4 if timed else 5) if quick else (6 if timed else 7)
-        one(ctx, binary, name, cfg, ticks, depth, units[(i + ctx.seed) % len(units)])
-        n, dp = (300, 30) if quick else (20000, 60)
-        one(ctx, binary, name, cfg, ticks, dp, units[(i + 1 + ctx.seed) % len(units)], simulate="num=%d" % n)
+        depth = 4 if quick else (6 if timed else 7)
+        for alpha in ("api", "exec"):
+            jobs.append((name, cfg, ticks, depth, units[(i + ctx.seed) % len(units)], alpha, None))
+            n, dp = (150, 30) if quick else (10000, 60)
+            jobs.append((name, cfg, ticks, dp, units[(i + 1 + ctx.seed) % len(units)], alpha, "num=%d" % n))
+    from concurrent.futures import ThreadPoolExecutor
+    with ThreadPoolExecutor(max_workers=5) as ex:
+        futs = [ex.submit(one, ctx, binary, *j) for j in jobs]
+        for f in futs:
+            f.result()
     ctx.assumptions += ["testing/synctest fake clock is the breaker's clock (time.Now inside a bubble)",
                         "observations only through the public CircuitBreaker API"]
     return vlib.finish(ctx, rule="every history of depth D over {RecordSuccess, RecordFailure, TryAcquirePermit, Open, HalfOpen, Close, Tick(d)} "
